@@ -178,7 +178,7 @@ func RunBetaScale(cfgc core.Config, scope core.Scope) *core.Result {
 					return true
 				})
 				g := cfgx.New(fd.Body, info)
-				g.Keep = cfgx.KeepUnder(func(c ast.Expr) (bool, bool) {
+				assumeBeta := func(c ast.Expr) (bool, bool) {
 					if caseOfBeta[c] {
 						tv, ok := info.Types[c]
 						if !ok || tv.Value == nil {
@@ -204,8 +204,10 @@ func RunBetaScale(cfgc core.Config, scope core.Scope) *core.Result {
 						truth = !truth
 					}
 					return truth, true
-				})
-				reach := g.Reachable()
+				}
+				assumeBeta = cfgx.WithBoolDefs(info, fd.Body, assumeBeta)
+				g.Keep = cfgx.KeepUnder(assumeBeta)
+				reach := g.ReachSome(assumeBeta, cfgx.StableLeaf(info, fd.Body))
 				// with beta == 0 a preceding explicit zero fill makes the
 				// multiplication harmless (Dsymm zeroes C first)
 				zeroStore := func(n ast.Node) bool {
